@@ -68,6 +68,8 @@ where
                 return Some(d);
             }
             match &m.pend {
+                // the bookkeeping of a failed not() is pinned, not specified: well-formedness only
+                _ if m.stats.not_failures > 0 => {}
                 None => return Some("model has no pending error for a rejected input".into()),
                 Some(me) => {
                     if let Some(d) = err_diff::<I>(buf, me, last, rules) {
